@@ -307,7 +307,7 @@ def execute(case, mode):
 class _Scn(object):
     PROP = PROP
     ID = 'c05.hist'
-    TIERS = {'quick': 10000, 'thorough': 300000}
+    TIERS = {'quick': 20000, 'thorough': 300000}
     maxops = 10
 
     def generate(self, sub):
